@@ -371,6 +371,43 @@ def traits_cases():
         yield {'leg': 'traits', 'what': 'tally', 'procs': 2, 'outcome': [list(map(list, oc[0])), list(oc[1])]}
 
 
+START_CHILD = r'''
+import json, multiprocessing, sys
+sys.path.insert(0, sys.argv[1]); sys.path.insert(0, sys.argv[2])
+import mc.props.c16 as c16
+import ECAgent.Batching as Batching
+if __name__ == '__main__':
+    multiprocessing.set_start_method(sys.argv[3], force=True)
+    best, results = Batching.grid_search(c16.StepModel, {'a': [1, 2, 3], 'life': 100}, c16.steps_score, processes=2,
+                                         max_timesteps=int(sys.argv[4]), repetitions=2, mode=Batching.ScoreMode.MAX_SUM)
+    print('RESULT ' + json.dumps([[r['a'], r['records'], r['score']] for r in results] + [results.index(best)]))
+'''
+
+
+def start_method_case(case):
+    """A search with worker processes that are NOT forked from the caller (spawn / forkserver: they import everything
+    afresh): repetitions and max_timesteps still apply, the outcome equals the serial one."""
+    import json
+    import os
+    import subprocess
+    import sys
+    tree = os.path.dirname(os.path.dirname(os.path.abspath(Core.__file__)))
+    verif = os.path.dirname(os.path.dirname(os.path.dirname(os.path.abspath(__file__))))
+    r = subprocess.run([sys.executable, '-c', START_CHILD, tree, verif, case['method'], str(case['limit'])],
+                       capture_output=True, text=True, env=dict(os.environ, PYTHONHASHSEED='0'), timeout=300)
+    line = next((ln for ln in r.stdout.splitlines() if ln.startswith('RESULT ')), None)
+    if line is None:
+        raise Violation(f'grid_search with 2 {case["method"]}-started worker processes failed',
+                        observed=(r.stderr.strip().splitlines() or [''])[-1])
+    got = json.loads(line[7:])
+    lim = case['limit']
+    exp = [[a, [lim, lim], 2 * lim] for a in (1, 2, 3)] + [0]
+    if got != exp:
+        raise Violation(f'grid_search with 2 {case["method"]}-started worker processes (max_timesteps={lim}, 2 repetitions): '
+                        f'outcome differs from the serial one', expected=exp, observed=got)
+    return 3
+
+
 def limit_cases():
     for limit, life in ((3, 100), (5, 2), (4, 3)):
         yield {'leg': 'limit', 'limit': limit, 'life': life, 'procs': 1}
@@ -386,7 +423,11 @@ def reused_list_case(case):
     GLOBAL_TABLE.clear()
     GLOBAL_TABLE.update({(a, b): 10 * a + b for a in (1, 2, 3, 4) for b in (0, 5, 6)})
     plan = [('run', [(3, 5), (3, 6), (1, 5), (1, 6), (2, 5), (2, 6)]), ('remove', 'b'), ('run', [(3, 0), (1, 0), (2, 0)]),
-            ('remove', 'a'), ('add', ('a', [4, 1, 1, 4])), ('run', [(4, 0), (1, 0), (1, 0), (4, 0)])]
+            ('remove', 'a'), ('add', ('a', [4, 1, 1, 4])), ('run', [(4, 0), (1, 0), (1, 0), (4, 0)]),
+            # a name declared with a single value, removed, and declared again with a series of values (and back)
+            ('add', ('b', 6)), ('run', [(4, 6), (1, 6), (1, 6), (4, 6)]), ('remove', 'b'), ('add', ('b', [5, 6])),
+            ('run', [(4, 5), (4, 6), (1, 5), (1, 6), (1, 5), (1, 6), (4, 5), (4, 6)]),
+            ('remove', 'b'), ('add', ('b', 5)), ('run', [(4, 5), (1, 5), (1, 5), (4, 5)])]
     n = 0
     for what, arg in plan:
         if what == 'remove':
@@ -579,13 +620,14 @@ def chunk_fn(ctx, chunk):
     cache = sched.WorkerCache()
     serial_memo = {}
     for case in chunk:
-        if case['leg'] in ('limit', 'reused_list', 'traits', 'source_dict'):
+        if case['leg'] in ('limit', 'reused_list', 'traits', 'source_dict', 'start_method'):
             ctx.traces += 1
             ctx.states += 1
             ctx.transitions += 3
             try:
                 ctx.outcome(hbfs._guard({'limit': limit_case, 'reused_list': reused_list_case,
-                                         'traits': traits_case, 'source_dict': source_dict_case}[case['leg']], case))
+                                         'traits': traits_case, 'source_dict': source_dict_case,
+                                         'start_method': start_method_case}[case['leg']], case))
             except Violation as v:
                 ctx.report(case, v)
             continue
@@ -632,6 +674,8 @@ def run(ctx):
     sc = list(sched_cases())
     pr = list(pool_reuse_cases())
     lim = list(limit_cases()) + [{'leg': 'reused_list', 'procs': 1}, {'leg': 'source_dict', 'procs': 1}] + list(traits_cases())
+    if not ctx.small:
+        lim += [{'leg': 'start_method', 'method': 'spawn', 'limit': 3}, {'leg': 'start_method', 'method': 'forkserver', 'limit': 4}]
     first = [c for c in ser if c['leg'] == 'serial_typed_rows'] + [c for c in ser if c['leg'] == 'serial_mixed']
     allc = first + lim + [c for c in ser if c['leg'] not in ('serial_typed_rows', 'serial_mixed')] + sc
     if ctx.small:      # reduced: limits, traits, the 2- and 3-combination serial tables, no schedules
@@ -654,6 +698,9 @@ def replay(case):
         return
     if case['leg'] == 'source_dict':
         hbfs._guard(source_dict_case, case)
+        return
+    if case['leg'] == 'start_method':
+        hbfs._guard(start_method_case, case)
         return
     if case['leg'] == 'limit':
         hbfs._guard(limit_case, case)
